@@ -393,7 +393,7 @@ def gen_cases(tier, seed):
 
 
 def _f(d, **kw):
-    f = {"sym": (d.get("a") or {}).get("sym"), "dtype": (d.get("a") or d.get("v") or {}).get("dtype")}
+    f = {"sym": (d.get("a") or {}).get("sym")}
     f.update(kw)
     return f
 
@@ -474,8 +474,7 @@ def check_squeeze(d):
     too_big = [i for i in named if sum(x.indices[i].chargemap.values()) > 1]
     charged = [i for i in named if not too_big and list(x.indices[i].chargemap) != [zero]]
     must_raise = bool(too_big or charged)
-    feats0 = _f(d, negative_axis=neg, axis_kind="none" if axis is None else ("int" if isinstance(axis, int) else "tuple"), must_raise=must_raise,
-                too_big=bool(too_big), charged=bool(charged))
+    feats0 = _f(d, negative_axis=neg, axis_kind="none" if axis is None else ("int" if isinstance(axis, int) else "tuple"), must_raise=must_raise)
     fails = []
     routes = [("method", lambda: x.squeeze(lib_axis)), ("function", lambda: sr.squeeze(x, lib_axis)), ("autoray", lambda: ar.do("squeeze", x, lib_axis))]
     if axis is None:
@@ -552,7 +551,7 @@ def check_scalar_ops(d):
                 ("truediv", lambda s=s: x / s, lambda s=s: D / s, False),
             ):
                 out = run_routes([("method", th)])["method"]
-                feats = _f(d, op=name, scalar=repr(s))
+                feats = _f(d, op=name, complex_scalar=isinstance(s, complex))
                 if out[0] == "exc":
                     fails.append(("C08.scalar_ops.no_exception", f"{name} {s!r}: {out[1]}: {out[2]}", feats))
                 else:
@@ -571,7 +570,7 @@ def check_add_sub(d):
     A, B = dense_of(a), dense_of(b)
     ix = idx_of(a)
     same = set(a.blocks) == set(b.blocks)
-    feats = _f(d, same_sectors=same, dtype_b=d["b"].get("dtype"))
+    feats = _f(d, same_sectors=same, mixed_dtype=d["a"].get("dtype") != d["b"].get("dtype"))
     fails = []
     r = run_routes([("add", lambda: a + b), ("radd", lambda: b + a), ("sub", lambda: a - b)])
     for name, want in (("add", A + B), ("radd", B + A)):
@@ -597,7 +596,7 @@ def check_mul(d):
     ix = idx_of(a)
     only_a = bool(set(a.blocks) - set(b.blocks))
     only_b = bool(set(b.blocks) - set(a.blocks))
-    feats = _f(d, left_only_sectors=only_a, right_only_sectors=only_b, dtype_b=d["b"].get("dtype"))
+    feats = _f(d, left_only_sectors=only_a, right_only_sectors=only_b, mixed_dtype=d["a"].get("dtype") != d["b"].get("dtype"))
     fails = []
     r = run_routes([("ab", lambda: a * b), ("ba", lambda: b * a)])
     for name in ("ab", "ba"):
@@ -637,7 +636,7 @@ def check_mdiag(d):
     fails = []
     out = run_routes([("method", lambda: x.multiply_diagonal(v, axis)), ("function", lambda: sr.multiply_diagonal(x, v, axis)), ("autoray", lambda: ar.do("multiply_diagonal", x, v, axis))])
     for name, r in out.items():
-        feats = _f(d, route=name, negative_axis=axis < 0, vector_missing_charges=missing, dtype_v=d["v"].get("dtype"))
+        feats = _f(d, route=name, negative_axis=axis < 0, vector_missing_charges=missing)
         if r[0] == "exc":
             if axis >= 0:
                 fails.append(("C08.multiply_diagonal.no_exception", f"{name}: {r[1]}: {r[2]}", feats))
@@ -711,7 +710,7 @@ def check_elementwise_array(d):
     for fn, obj, args, wf, exact in cases:
         out = run_routes(_three(fn, obj, *args))
         for name, r in out.items():
-            feats = _f(d, fn=fn, route=name, empty=not has, args=repr(args))
+            feats = _f(d, fn=fn, route=name, empty=not has)
             if r[0] == "exc":
                 if has:
                     fails.append((f"C08.elementwise_array.{fn}.no_exception", f"{name}: {r[1]}: {r[2]}", feats))
@@ -782,7 +781,7 @@ def check_vector(d):
         if kind == "scalar":
             op, s = d["op"], _scalar(d["s"])
             fp += (op, repr(s))
-            feats = _f(d, kind=kind, op=op, scalar=repr(s))
+            feats = _f(d, kind=kind, op=op, complex_scalar=isinstance(s, complex))
             o = run_routes([("op", lambda: _PY_OPS[op](v, s))])["op"]
             want = _PY_OPS[op](V, s)
             if o[0] == "exc":
@@ -796,7 +795,7 @@ def check_vector(d):
             t = vec_tables(v, w)
             V2, W2 = vec_dense(v, t), vec_dense(w, t)
             same = set(v.blocks) == set(w.blocks)
-            feats = _f(d, kind=kind, op=op, same_keys=same, dtype_w=d["w"].get("dtype"))
+            feats = _f(d, kind=kind, op=op, same_keys=same, mixed_dtype=d["v"].get("dtype") != d["w"].get("dtype"))
             o = run_routes([("op", lambda: _PY_OPS[op](v, w))])["op"]
             if op == "add":
                 keys = set(v.blocks) | set(w.blocks)
